@@ -303,6 +303,13 @@ def main(argv=None) -> int:
         for sig, d, what in out['viol']:
             sig = dict(sig, part='mark_placement')
             chk.violation(sig, {'signature': sig, 'case': d}, what)
+    # several lemmas executed on one converter: marked steps belong to one proof
+    swork = [list(t) for k in (1, 2, 3) for t in itertools.permutations(('la', 'lb', 'lc'), k)]
+    for out in par.pmap(c16.lemma_sequence_chunk, swork):
+        agg['mark_evals'] = agg.get('mark_evals', 0) + out['evals']
+        for sig, d, what in out['viol']:
+            sig = dict(sig, part='lemma_sequence_execution')
+            chk.violation(sig, {'signature': sig, 'case': d}, what)
     from . import pyrun
     pyrun.cleanup()
     nseeds = 32 if thorough else 8
